@@ -54,7 +54,8 @@ def make(ctx, reaction, fast, Cd, fast_ratio):
     rec = new_record(I, AR, dict(
         fast=fast, thermalXS=P("xs"), resonance=P("res"), Thalf_hrs=P("Th"), reaction=reaction,
         Thalf_parent=P("Thp"), thermalXS_parent=P("xsp"), resonance_parent=P("resp"),
-        daughter="X", isotope="Fe-56", comments=""), "record")
+        daughter="X", isotope="Fe-56", comments="", Thalf_str="1 h", isomer="", symbol="Fe", A=sp.Integer(56), Z=sp.Integer(26),
+        abundance=P("abund"), gT=sp.Integer(1), percentIT=sp.Integer(0)), "record")
     w.set(iso, neutron_activation=[rec], isotope=sp.Symbol("A", positive=True))
     Env = I.get_class("activation.ActivationEnvironment")
     env = I.instantiate(Env, [], dict(fluence=P("phi"), Cd_ratio=Cd, fast_ratio=fast_ratio), name="env")
@@ -346,7 +347,20 @@ def _r5(ctx):
     w = World(ctx.src, loaders=())
     I = w.I
     iso = w.isotope("Fe", 56)
-    I.builtins["open"] = Builtin("open", lambda *a, **k: TextFile(["\t\t\n", "xx\tskipped\n", probe], "activation.dat"))
+    # a second row of another shape: not a fast reaction by its flag although its reaction column reads like one, and
+    # numeric cells that are blank or hold only white space (as seven rows of the real table do): it is kept, blanks are 0
+    cells2 = list(cells)
+    cells2[4] = "57"
+    cells2[5] = '"Fe-57"'
+    cells2[col_of["fast"]] = "n"
+    cells2[col_of["reaction"]] = '"n,p"'
+    cells2[col_of["gT"]] = " "
+    cells2[col_of["percentIT"]] = ""
+    probe2 = "\t".join(cells2)
+    if not probe.endswith("\n"):
+        probe += "\n"
+    iso57 = w.isotope("Fe", 57)
+    I.builtins["open"] = Builtin("open", lambda *a, **k: TextFile(["\t\t\n", "xx\tskipped\n", probe, probe2], "activation.dat"))
     I.stubs["core.get_data_path"] = lambda I_, a, k: "/data"
     try:
         I.call(I.global_name("activation", "init"), [w.table], {})
@@ -378,6 +392,15 @@ def _r5(ctx):
                 want = "c8 c9"
             ctx.check(have == want, "R5", f"attribute {nm} is served from column {cidx}",
                       f"{nm} = {have!r}, expected the cell of column {cidx} ({want!r})", site, sample={nm: str(have)})
+    recs2 = I.heap[iso57.id].get("neutron_activation")
+    ctx.check(isinstance(recs2, list) and len(recs2) == 1, "R5", "a row whose numeric cells are blank or white space is loaded like any other",
+              f"Fe[57].neutron_activation = {_s(recs2)}: the row was dropped", site)
+    if isinstance(recs2, list) and len(recs2) == 1:
+        got2 = I.heap[recs2[0].id]
+        ctx.check(got2.get("fast") is False, "R5", "the fast flag is the table's y/n column, whatever the reaction column says",
+                  f"fast = {got2.get('fast')!r} for a row flagged 'n' whose reaction is 'n,p'", site)
+        ctx.check(got2.get("gT") == 0 and got2.get("percentIT") == 0, "R5", "blank numeric cells are served as 0",
+                  f"gT = {got2.get('gT')!r}, percentIT = {got2.get('percentIT')!r}", site)
     ctx.check("neutron_activation" in I.heap[w.table.id].get("properties", []), "R5", "init marks the table as loaded", "not marked", site)
     ctx.floor("R5", 40)
     ctx.extra["exhaustive"] = True
